@@ -77,11 +77,12 @@ Proof.
   - specialize (IH x (or_introl eq_refl)). cbn in IH. lia.
   - destruct Hin as [->|Hin]; [lia|]. specialize (IH y (or_intror Hin)). cbn in IH. lia.
 Qed.
+Lemma fold_max_bounds l y lo hi : lo <= y <= hi -> Forall (fun x => lo <= x <= hi) l -> lo <= fold_right Z.max y l <= hi.
+Proof. intros Hy HF. induction HF as [|z l Hz _ IH]; cbn [fold_right]; lia. Qed.
 Lemma max_or0_bounds l lo hi : lo <= 0 <= hi -> Forall (fun x => lo <= x <= hi) l -> lo <= max_or0 l <= hi.
 Proof.
   intros H0 HF. destruct l as [|y l]; [cbn; lia|]. cbn [max_or0]. inversion HF as [|? ? Hy HF']; subst.
-  clear HF. revert y Hy. induction HF' as [|z l Hz _ IH]; intros y Hy; cbn; [lia|].
-  specialize (IH y Hy). lia.
+  apply fold_max_bounds; assumption.
 Qed.
 Lemma max_or0_nonempty_in l : l <> [] -> In (max_or0 l) l.
 Proof.
@@ -92,7 +93,7 @@ Proof.
 Qed.
 
 Lemma min_list_ge d l n : n <= d -> Forall (fun x => n <= x) l -> n <= min_list d l.
-Proof. intros Hd HF. induction HF as [|x l Hx _ IH]; cbn; lia. Qed.
+Proof. intros Hd HF. unfold min_list. induction HF as [|x l Hx _ IH]; cbn [fold_right]; lia. Qed.
 
 (* chunks of a prefix *)
 Lemma chunks_nat_prefix {A} size : 0 < size -> forall q Q (vs : list A) m,
